@@ -53,6 +53,8 @@ func main() {
 			genC06(rng, *n, *tier)
 		case "C07":
 			genC07(rng, *n, *tier)
+		case "C09":
+			genC09(rng, *n, *tier)
 		default:
 			fmt.Fprintln(os.Stderr, "unknown group")
 			os.Exit(2)
